@@ -21,9 +21,12 @@ import time
 
 VX = os.path.dirname(os.path.abspath(__file__))
 VERIF = os.path.dirname(VX)
-HARNESS_FILE = os.path.join(VERIF, "kani", "parser_harness.rs")
 STUBS = os.path.join(VERIF, "kani", "stubs")
-PARSER = "src/libpatch/patch/unified/parser.rs"
+# harness file -> (source file it is appended to, module path of that file in the lib crate)
+HARNESS_FILES = [
+    dict(file=os.path.join(VERIF, "kani", "parser_harness.rs"), source="src/libpatch/patch/unified/parser.rs", mod="patch::unified::parser"),
+    dict(file=os.path.join(VERIF, "kani", "lines_harness.rs"), source="src/libpatch/util/lines_with_endings.rs", mod="util::lines_with_endings"),
+]
 
 
 def repo():
@@ -33,16 +36,18 @@ def repo():
 def harness_table():
     """name -> dict(function, bound, kind) read from the harness file itself (single source)."""
     t = {}
-    txt = open(HARNESS_FILE).read()
-    for m in re.finditer(r"total!\((\w+),\s*(\w+),\s*(\d+)\);", txt):
-        t[m.group(1)] = dict(function=m.group(2), bound=int(m.group(3)), kind="total")
-    for m in re.finditer(r"exact!\((exact_(\w+)),\s*(\w+),\s*(\d+)\);", txt):
-        t[m.group(1)] = dict(function=m.group(2), bound=int(m.group(4)), kind="exact", check=m.group(3))
+    for hf in HARNESS_FILES:
+        txt = open(hf["file"]).read()
+        for m in re.finditer(r"total!\((\w+),\s*(\w+),\s*(\d+)\);", txt):
+            t[m.group(1)] = dict(function=m.group(2), bound=int(m.group(3)), kind="total", source=hf["source"], mod=hf["mod"], hfile=hf["file"])
+        for m in re.finditer(r"exact!\((exact_(\w+)),\s*(\w+),\s*(\d+)\);", txt):
+            t[m.group(1)] = dict(function=m.group(2), bound=int(m.group(4)), kind="exact", check=m.group(3), source=hf["source"], mod=hf["mod"],
+                                 hfile=hf["file"])
     return t
 
 
-def shared_section():
-    txt = open(HARNESS_FILE).read()
+def shared_section(hfile):
+    txt = open(hfile).read()
     a = txt.index("// ==== SHARED BEGIN")
     b = txt.index("// ==== SHARED END")
     return txt[a:b]
@@ -66,9 +71,10 @@ def make_scratch():
     shutil.copy(os.path.join(d, "Cargo.toml"), os.path.join(d, "Cargo.toml.orig"))
     with open(os.path.join(d, "Cargo.toml"), "a") as f:
         f.write('\n[patch.crates-io]\nbacktrace = { path = "stubs/backtrace" }\nmemchr = { path = "stubs/memchr" }\n')
-    shutil.copy(os.path.join(d, PARSER), os.path.join(d, PARSER + ".orig"))
-    with open(os.path.join(d, PARSER), "a") as f:
-        f.write("\n" + open(HARNESS_FILE).read())
+    for hf in HARNESS_FILES:
+        shutil.copy(os.path.join(d, hf["source"]), os.path.join(d, hf["source"] + ".orig"))
+        with open(os.path.join(d, hf["source"]), "a") as f:
+            f.write("\n" + open(hf["file"]).read())
     return d
 
 
@@ -90,7 +96,7 @@ def run_harnesses(d, names, jobs=6, timeout=900, playback=False):
         cmd += ["-j", str(jobs)]
     cmd += ["--exact"]          # --harness is a substring filter otherwise (total_parse_hunk_line would also run .._and_count)
     for n in names:
-        cmd += ["--harness", "patch::unified::parser::verif_kani::" + n]
+        cmd += ["--harness", "%s::verif_kani::%s" % (harness_table()[n]["mod"], n)]
     t0 = time.time()
     try:
         p = subprocess.run(cmd, cwd=d, env=_env(d), capture_output=True, text=True, timeout=timeout * len(names) + 1200)
@@ -165,29 +171,33 @@ def replay_native(d, cases):
     function vs. oracle, assert on disagreement).  A case is CONFIRMED iff the call panics.  One build for all cases."""
     tab = harness_table()
     shutil.copy(os.path.join(d, "Cargo.toml.orig"), os.path.join(d, "Cargo.toml"))
-    shutil.copy(os.path.join(d, PARSER + ".orig"), os.path.join(d, PARSER))
-    tests = []
+    for hf in HARNESS_FILES:
+        shutil.copy(os.path.join(d, hf["source"] + ".orig"), os.path.join(d, hf["source"]))
+    per_source = {}
     for k, c in enumerate(cases):
         h = tab[c["harness"]]
         body = ", ".join(str(b) for b in c["input"])
         if h["kind"] == "exact":
-            call = "%s(input); format!(\"real {:?}\", %s(input))" % (h["check"], h["function"])
+            real = "\"<see check>\".to_string()" if h["function"] == "split_lines" else "format!(\"{:?}\", %s(input))" % h["function"]
+            call = "%s(input); \"ok\".to_string()" % h["check"]
         else:
-            call = "format!(\"real {:?}\", %s(input))" % h["function"]
-        tests.append("""
+            real = "format!(\"{:?}\", %s(input))" % h["function"]
+            call = real
+        per_source.setdefault(h["source"], dict(hfile=h["hfile"], tests=[]))["tests"].append("""
     #[test]
     fn verif_replay_case_%d() {
         let input: &[u8] = &[%s];
-        println!("VERIF-REPLAY %d real-result {:?}", std::panic::catch_unwind(|| { format!("{:?}", %s(input)) }).unwrap_or("<panicked>".to_string()));
+        println!("VERIF-REPLAY %d real-result {:?}", std::panic::catch_unwind(|| { %s }).unwrap_or("<panicked>".to_string()));
         let r = std::panic::catch_unwind(|| { %s });
         match r {
             Ok(s) => println!("VERIF-REPLAY %d agrees {}", s),
             Err(_) => println!("VERIF-REPLAY %d PANICKED"),
         }
     }
-""" % (k, body, k, h["function"], call, k, k))
-    with open(os.path.join(d, PARSER), "a") as f:
-        f.write("\n#[cfg(test)]\nmod verif_replay {\n    use super::*;\n" + shared_section() + "\n" + "".join(tests) + "}\n")
+""" % (k, body, k, real, call, k, k))
+    for src, v in per_source.items():
+        with open(os.path.join(d, src), "a") as f:
+            f.write("\n#[cfg(test)]\nmod verif_replay {\n    use super::*;\n" + shared_section(v["hfile"]) + "\n" + "".join(v["tests"]) + "}\n")
     e = _env(d)
     e["CARGO_TARGET_DIR"] = os.path.join(d, "target_native")
     p = subprocess.run(["cargo", "test", "--offline", "--lib", "verif_replay_case", "--", "--nocapture", "--test-threads", "1"],
